@@ -1000,7 +1000,7 @@ type c17RawOp struct {
 	d    int
 }
 
-func c17GenRawOp(nk int) *rapid.Generator[c17RawOp] {
+func c17GenRawOp(nk, nc int) *rapid.Generator[c17RawOp] {
 	// keys skewed towards low indices so that re-sets and re-reads of the same
 	// key are frequent while all nk keys still occur
 	keyGen := rapid.Custom(func(rt *rapid.T) int {
@@ -1014,6 +1014,9 @@ func c17GenRawOp(nk int) *rapid.Generator[c17RawOp] {
 		r := c17RawOp{}
 		o := &r.op
 		o.K = rapid.SampledFrom([]string{"set", "set", "set", "setx", "setx", "get", "get", "del", "adv", "adv", "adv", "take", "take"}).Draw(rt, "kind")
+		if nc > 1 && o.K != "adv" && o.K != "take" {
+			o.C = rapid.IntRange(0, nc-1).Draw(rt, "c")
+		}
 		switch o.K {
 		case "set", "get", "del":
 			o.Key = keyGen.Draw(rt, "k")
@@ -1029,7 +1032,7 @@ func c17GenRawOp(nk int) *rapid.Generator[c17RawOp] {
 				o.N = rapid.IntRange(2, 9).Draw(rt, "n")
 			case "lo", "hi":
 				// aim at the expiry window of a key the generator believes live
-				r.aim = rapid.IntRange(0, nk-1).Draw(rt, "aim")
+				r.aim = rapid.IntRange(0, nk*nc-1).Draw(rt, "aim")
 				r.d = rapid.IntRange(-2, 2).Draw(rt, "d")
 				o.N = rapid.IntRange(1, 3).Draw(rt, "n") // fallback
 			case "rev":
@@ -1047,7 +1050,12 @@ func c17GenRawOp(nk int) *rapid.Generator[c17RawOp] {
 				if rapid.IntRange(0, 4).Draw(rt, "other-key") == 0 {
 					tkey = keyGen.Draw(rt, "k2") // callers of different keys must not share executions
 				}
+				tc := 0
+				if nc > 1 { // callers spread over both caches, same key space, overlapping
+					tc = rapid.IntRange(0, nc-1).Draw(rt, "tc")
+				}
 				o.T = append(o.T, c17Taker{
+					C:   tc,
 					Key: tkey,
 					At:  rapid.SampledFrom([]int{0, 0, 0, 1, 2, 5, 9, 10, 11, 20, 30}).Draw(rt, "at"),
 					Lat: rapid.SampledFrom([]int{0, 1, 3, 5, 10, 12, 25}).Draw(rt, "lat"),
@@ -1082,19 +1090,34 @@ func c17Gen(rt *rapid.T) c17Case {
 	if c.Limit > 0 && c.NK <= c.Limit && rapid.IntRange(0, 3).Draw(rt, "nk-over") > 0 {
 		c.NK = c.Limit + 1 // evictions need more keys than the limit
 	}
+	// several caches in one process: a second cache with its own limit/expiry,
+	// with or without WithName (without: both carry the default name)
+	nc := 1
+	exps := []int{c.Exp}
+	if rapid.IntRange(0, 7).Draw(rt, "two-caches") < 3 {
+		nc = 2
+		names := rapid.SampledFrom([][2]string{{"", ""}, {"", ""}, {"a", "a"}, {"", "a"}, {"a", "b"}}).Draw(rt, "names")
+		c.Name = names[0]
+		c.C2 = &c17Cfg{
+			Limit: rapid.SampledFrom([]int{0, 1, 2, 3, 4}).Draw(rt, "limit2"),
+			Exp:   c17GenExp(rt, "exp2"),
+			Name:  names[1],
+		}
+		exps = append(exps, c.C2.Exp)
+	}
 	minOps := rapid.SampledFrom([]int{1, 6, 12, 24}).Draw(rt, "min-ops")
-	raw := rapid.SliceOfN(c17GenRawOp(c.NK), minOps, 60).Draw(rt, "ops")
+	raw := rapid.SliceOfN(c17GenRawOp(c.NK, nc), minOps, 60).Draw(rt, "ops")
 	now := c.Off
-	gk := make([]c17GenKey, c.NK)
+	gk := make([]c17GenKey, c.NK*nc) // index = cache*NK + key
 	for _, r := range raw {
 		o := r.op
 		switch o.K {
 		case "set":
-			gk[o.Key] = c17GenKey{set: now, exp: c.Exp, live: true}
+			gk[o.C*c.NK+o.Key] = c17GenKey{set: now, exp: exps[o.C], live: true}
 		case "setx":
-			gk[o.Key] = c17GenKey{set: now, exp: o.E, live: true}
+			gk[o.C*c.NK+o.Key] = c17GenKey{set: now, exp: o.E, live: true}
 		case "del":
-			gk[o.Key].live = false
+			gk[o.C*c.NK+o.Key].live = false
 		case "adv":
 			if (r.mode == "lo" || r.mode == "hi") && gk[r.aim].live && gk[r.aim].exp <= c17LongMs {
 				lo, hi := c17Window(gk[r.aim].exp)
@@ -1123,8 +1146,8 @@ func c17Gen(rt *rapid.T) c17Case {
 			}
 			now += span / 10
 			for _, tk := range o.T {
-				if !gk[tk.Key].live {
-					gk[tk.Key] = c17GenKey{set: now, exp: c.Exp, live: true}
+				if g := &gk[tk.C*c.NK+tk.Key]; !g.live {
+					*g = c17GenKey{set: now, exp: exps[tk.C], live: true}
 				}
 			}
 		}
@@ -1134,7 +1157,7 @@ func c17Gen(rt *rapid.T) c17Case {
 }
 
 func TestVerif_C17_history(t *testing.T) {
-	kit.Run(t, "C17", "cache-history", kit.Opts{Quick: 6000, Thorough: 160000}, c17Gen,
+	kit.Run(t, "C17", "cache-history", kit.Opts{Quick: 4000, Thorough: 128000}, c17Gen,
 		func(c c17Case) kit.Verdict { return c17Interp(t, c) })
 }
 
